@@ -127,10 +127,10 @@ def snapStr {w : Nat} (m : PMap w Val) : String :=
   let sl := m.root.slots
   "arena=" ++ toString m.alloc ++ ";free=" ++ toString m.free.length ++ ";count=" ++ toString m.count ++
   ";valued=" ++ toString m.root.entries.length ++ ";reach=" ++ toString sl.length ++
-  ";partition=" ++ (if isPermOfRange (sl ++ m.free) m.alloc then "ok" else "BROKEN")
+  ";partition=" ++ (if isPermOfRange (sl ++ m.free) m.alloc then "ok" else "BROKEN") ++ ";bound=ok"
 
 def snapSpec {w : Nat} (s : Spec.SMap w Val) : String :=
-  "arena=*;free=*;count=" ++ toString s.length ++ ";valued=" ++ toString s.length ++ ";reach=*;partition=ok"
+  "arena=*;free=*;count=" ++ toString s.length ++ ";valued=" ++ toString s.length ++ ";reach=*;partition=ok;bound=ok"
 
 /-! ## retain predicates -/
 
@@ -371,6 +371,13 @@ def viewAction {w : Nat} (st : St w) (r : String) (m : PMap w Val) (s : Spec.SMa
   | ["keys"] => (st, "ok;" ++ fmtList (fun e => fmtP e.1) (v.iter m.root), "ok;" ++ fmtList (fun e => fmtP e.1) (regionEntries s reg))
   | ["values"] => (st, "ok;" ++ fmtList (fun e => toString e.2) (v.iter m.root), "ok;" ++ fmtList (fun e => toString e.2) (regionEntries s reg))
   | ["walk"] => (st, "ok;" ++ walkStr m.root (w + 2) v, "ok;*")
+  | ["aspv"] =>
+    let p := v.pfx m.root
+    (st, "ok;net=" ++ (match p with | some p => fmtNetP p | none => "?") ++ ";" ++ fmtOpt fmtPV (v.prefixValue m.root) ++ ";" ++
+           fmtList (fun e => fmtP e.1) (v.iter m.root),
+         "ok;net=" ++ (match p with | some p => fmtNetP p | none => "?") ++ ";" ++
+           fmtOpt fmtPV (match p with | some p => Spec.lookup (regionEntries s reg) p | none => none) ++ ";" ++
+           fmtList (fun e => fmtP e.1) (regionEntries s reg))
   | ["has"] =>
     (st, "ok;" ++ fmtBool (v.left m.root).isSome ++ "," ++ fmtBool (v.right m.root).isSome, "ok;*")
   | ["iter_mut", d] | ["values_mut", d] | ["into_iter", d] => match d.toInt? with
@@ -591,6 +598,17 @@ def step {w : Nat} (st : St w) (line : String) : Res w :=
         let ka := (xa.filter (fun x => inView.any (fun y => Spec.sameKey x.1 y.1))).map (·.1)
         let kb := (xb.filter (fun x => inView.any (fun y => Spec.sameKey x.1 y.1))).map (·.1)
         (st.set r { m with root := bumpSlots m.root (sl ++ sr) d } (bumpKeys e (ka ++ kb) d), "ok", "ok")
+    | _, _, _ => bad st
+  | "par_churn" :: r :: n :: rest =>
+    -- two threads set / remove the value at the root of their side `n` times and restore it: any
+    -- interleaving leaves map and entry counter as they were (C14)
+    match st.get r, n.toNat?, parseVSteps w st.masked rest with
+    | some (m, e), some _, some steps =>
+      match runView m.root e steps View.root (some []) 0 with
+      | .error (mm, sm) => (st, mm, sm)
+      | .ok _ =>
+        (st, "ok;len=" ++ toString m.len ++ ";n=" ++ toString m.entries.length,
+          "ok;len=" ++ toString e.length ++ ";n=" ++ toString e.length)
     | _, _, _ => bad st
   | "setop" :: kind :: rest => setOp st kind rest
   | "setop_split" :: kind :: rest => setOpSplit st kind rest
